@@ -8,6 +8,9 @@ import XcpProofs.ClashConc
 import XcpProofs.ClashExample
 import XcpProofs.MultiClash
 import XcpProofs.DerefOverlay
+import XcpProofs.GiClash
+import XcpProofs.DerefClash
+import XcpProofs.GiOverlay
 import XcpProofs.PoolInv
 import XcpProofs.ParfileInv
 import XcpProps.C01
@@ -296,6 +299,35 @@ theorem dereference_existing_destination_any_interleaving (fs : Fs) (c : Cfg) (h
     (L0.final st = true →
       FsEq st.fs { fs with root := fs.root.setAt tb.names (Node.overlay (fs.root.getAt tb.names) s.erase) }) :=
   overlay_deref_concurrent_ok fs c hd hn src tb s fuel hwf hsrc hder htb hne hcompat hpar hout hlen ls st hrun
+
+/-- … and the same with `--gitignore` patterns in force (clash judged against the PRUNED tree) and with `--dereference`
+(against the tree seen through the links): where the sequential run exits non-zero, no run of the concurrent model completes
+without having failed; where it succeeds, every complete run ends in the same overlay (C17
+`existing_destination_overlaid_on_every_interleaving`, `dereference_existing_destination_any_interleaving` above) -/
+theorem clash_with_gitignore_or_dereference_fails_on_every_interleaving :
+    (∀ (fs : Fs) (c : Cfg), c.dereference = false → c.noClobber = false → ∀ (ps : List Gi.Pattern)
+      (src tb : RPath) (srcNode dstNode : Node) (fuel : Nat),
+      FsEq fs fs → fs.root.isDir = true → PlainTarget fs src → fs.root.getAt src.names = some srcNode → srcNode.Copyable fuel →
+      PlainTarget fs tb → tb.names ≠ [] → fs.root.getAt tb.names = some dstNode → dstNode.plainTree = true →
+      ¬ Compatible (some dstNode) (Node.prune ps [] srcNode) →
+      (∃ es, fs.root.getAt tb.names.dropLast = some (.dir es)) →
+      ¬ src.names <+: tb.names → ¬ tb.names <+: src.names →
+      (src.names.length + fuel < 200 ∧ tb.names.length + fuel < 200) →
+      ∀ (ls : List L0.Label) (s : L0.St),
+        L0.run c (L0.init fs (walkEntry fs c (some ps) src tb (fuel + 1) [] [])) ls = some s → L0.final s = true → s.failed = true) ∧
+    (∀ (fs : Fs) (c : Cfg), c.dereference = true → c.noClobber = false → ∀ (src tb : RPath) (s : SNode) (dstNode : Node) (fuel : Nat),
+      FsEq fs fs → AbsNames src → derefS fs (fuel + 1) src.names [] = some s →
+      PlainTarget fs tb → tb.names ≠ [] → fs.root.getAt tb.names = some dstNode → dstNode.plainTree = true →
+      ¬ Compatible (some dstNode) s.erase →
+      (∃ es, fs.root.getAt tb.names.dropLast = some (.dir es)) → ReadsAway s tb.names → tb.names.length + fuel < 255 →
+      ∀ (ls : List L0.Label) (st : L0.St),
+        L0.run c (L0.init fs (walkEntry fs c none src tb (fuel + 1) [] [])) ls = some st → L0.final st = true → st.failed = true) :=
+  ⟨fun fs c hd hn ps src tb srcNode dstNode fuel hwf hroot hsrc hsn hcop htb hne hdst hplain hclash hpar hun1 hun2 hlen ls s hrun hfin =>
+     gitignore_clash_fails_every_interleaving fs c hd hn ps src tb srcNode dstNode fuel hwf hroot hsrc hsn hcop htb hne hdst hplain
+       hclash hpar hun1 hun2 hlen ls s hrun hfin,
+   fun fs c hd hn src tb s dstNode fuel hwf hsrc hder htb hne hdst hplain hclash hpar hout hlen ls st hrun hfin =>
+     deref_clash_fails_every_interleaving fs c hd hn src tb s dstNode fuel hwf hsrc hder htb hne hdst hplain hclash hpar hout hlen
+       ls st hrun hfin⟩
 
 /-- the totals of the update stream of a failure-free run are the same on every schedule -/
 theorem update_totals_schedule_independent (files : List Nat) (s1 s2 : Status.St)
